@@ -5,7 +5,7 @@ EXTENDS Naturals, Sequences, SequencesExt, Json, IOUtils, TLC, TLCExt
 
 All == ndJsonDeserialize(IOEnv.OBS_FILE)
 
-\* o.sent, o.got: sequences of payload ids ("forged:.." for anything that was never sent);
+\* o.sent, o.got: sequences of payload ids (900000 + n for bytes that were never sent as a record);
 \* o.atTamper: number of records delivered when the first manipulated frame was handed to the receiver (-1: none)
 P_Prefix(o) == IsPrefix(o.got, o.sent)
 P_NothingAfter(o) == o.atTamper >= 0 => Len(o.got) = o.atTamper
